@@ -902,46 +902,57 @@ func runC15(c *Ctx) {
 			c.check(good, fn, "message too big", fn.Pos(), "size limit and truncation are reported", "the message size rule (total > maxMessageSize or payload did not fit the buffer) is missing or weakened: an oversized or truncated message is delivered as data")
 			// ... and the total compared includes the fragment just copied
 			fresh := false
+			// (the comparison may live in the helper that appends a fragment and reports ErrMessageTooBig)
+			scan := []*ssa.Function{fn}
 			eachInstr(fn, func(in ssa.Instruction) {
-				bo, ok := in.(*ssa.BinOp)
-				if !ok {
-					return
-				}
-				// max < total  <=>  total > max: orient with the limit on the left
-				op0, _, tot, ok0 := binCmpWhere(bo, func(v ssa.Value) bool { return loadOfField(v, w.maxMsg) })
-				if !ok0 || op0 != token.LSS {
-					return
-				}
-				x := stripConv(tot)
-				// blocking reader: total + copy(...)
-				if add, ok := x.(*ssa.BinOp); ok && add.Op == token.ADD {
-					for _, op := range []ssa.Value{add.X, add.Y} {
-						if cc, ok := stripConv(op).(*ssa.Call); ok {
-							if b, ok := cc.Call.Value.(*ssa.Builtin); ok && b.Name() == "copy" {
-								fresh = true
-							}
-						}
+				if call, ok := in.(*ssa.Call); ok {
+					if h := call.Call.StaticCallee(); isHelperOf(top, h) && call.Referrers() != nil && len(*call.Referrers()) > 0 {
+						scan = append(scan, h)
 					}
 				}
-				// asynchronous reader: a load of the captured total, after the store of total + copy(...)
-				if u, ok := x.(*ssa.UnOp); ok && u.Op == token.MUL {
-					eachInstr(fn, func(y ssa.Instruction) {
-						st, ok := y.(*ssa.Store)
-						if !ok || st.Addr != u.X || !dominatesInstr(st, u) {
-							return
-						}
-						if add, ok := stripConv(st.Val).(*ssa.BinOp); ok && add.Op == token.ADD {
-							for _, op := range []ssa.Value{add.X, add.Y} {
-								if cc, ok := stripConv(op).(*ssa.Call); ok {
-									if b, ok := cc.Call.Value.(*ssa.Builtin); ok && b.Name() == "copy" {
-										fresh = true
-									}
+			})
+			for _, sf := range scan {
+				eachInstr(sf, func(in ssa.Instruction) {
+					bo, ok := in.(*ssa.BinOp)
+					if !ok {
+						return
+					}
+					// max < total  <=>  total > max: orient with the limit on the left
+					op0, _, tot, ok0 := binCmpWhere(bo, func(v ssa.Value) bool { return loadOfField(v, w.maxMsg) })
+					if !ok0 || op0 != token.LSS {
+						return
+					}
+					x := stripConv(tot)
+					// blocking reader: total + copy(...)
+					if add, ok := x.(*ssa.BinOp); ok && add.Op == token.ADD {
+						for _, op := range []ssa.Value{add.X, add.Y} {
+							if cc, ok := stripConv(op).(*ssa.Call); ok {
+								if b, ok := cc.Call.Value.(*ssa.Builtin); ok && b.Name() == "copy" {
+									fresh = true
 								}
 							}
 						}
-					})
-				}
-			})
+					}
+					// asynchronous reader: a load of the captured total, after the store of total + copy(...)
+					if u, ok := x.(*ssa.UnOp); ok && u.Op == token.MUL {
+						eachInstr(fn, func(y ssa.Instruction) {
+							st, ok := y.(*ssa.Store)
+							if !ok || st.Addr != u.X || !dominatesInstr(st, u) {
+								return
+							}
+							if add, ok := stripConv(st.Val).(*ssa.BinOp); ok && add.Op == token.ADD {
+								for _, op := range []ssa.Value{add.X, add.Y} {
+									if cc, ok := stripConv(op).(*ssa.Call); ok {
+										if b, ok := cc.Call.Value.(*ssa.Builtin); ok && b.Name() == "copy" {
+											fresh = true
+										}
+									}
+								}
+							}
+						})
+					}
+				})
+			}
 			c.check(fresh, fn, "message size uses the new total", fn.Pos(), "the limit is applied to the total including the fragment just copied", "the message size limit is applied to the total before the current fragment is added: a message that exceeds the maximum only with its last fragment is delivered")
 		}
 	}
